@@ -701,7 +701,7 @@ def run(ctx):
         return
     rng = ctx.rng
     lines = vlib.corpus_lines("C18")
-    n_num = ctx.n(12000, 600000)
+    n_num = ctx.n(12000, 400000)
     for i in range(n_num):
         ops = gen_num_group(rng, 3 if i % 2 else 2, ORDER_KINDS if i % 3 == 0 else None)
         lines.append("num\trel\t" + "\t".join(ops))
@@ -709,7 +709,7 @@ def run(ctx):
             ctx.stat("kind:" + kind_of(o))
     for i in range(ctx.n(1500, 40000)):
         lines.append("num\trel\t" + "\t".join(gen_text_group(rng, 3 if i % 2 else 2)))
-    comp, undesc = gen_compound_lines(rng, ctx.n(500, 12000))
+    comp, undesc = gen_compound_lines(rng, ctx.n(500, 4000))
     ctx.stat("compound-sources-not-evaluable", undesc)
     lines += comp
     # hash recipe: Hash(v) must be xxhash64 of the model's byte stream
